@@ -115,6 +115,9 @@ func VerifFailCleanly() {
 			// same date and description, one's postings a prefix of the other's (both arrival orders)
 			zzFCOpens + "2020-01-05 \"t\"\nEquity:Equity Assets:A 1 CHF\nAssets:A Expenses:X 1 CHF\n\n2020-01-05 \"t\"\nEquity:Equity Assets:A 1 CHF\n",
 			zzFCOpens + "2020-01-05 \"t\"\nEquity:Equity Assets:A 1 CHF\n\n2020-01-05 \"t\"\nEquity:Equity Assets:A 1 CHF\nAssets:A Expenses:X 1 CHF\n",
+			// journals that parse and build but fail the check: nothing may reach standard output (seed C14-r4m2)
+			zzFCOpens + "2020-01-05 \"t\"\nEquity:Equity Assets:A 100 CHF\n\n2020-01-06 balance Assets:A 99 CHF\n",
+			zzFCOpens + "2020-01-05 \"t\"\nEquity:Equity Assets:Unopened 1 CHF\n",
 		}
 		text := texts[v.Choice("text", len(texts))]
 		run = func() {
